@@ -84,9 +84,73 @@ class C15A(EngineBase):
                 st.ctx.weights[k] *= CACHE_OPS[k] / ops.GENERATORS[k][1]
         return st.ctx
 
+    def _siblings(self, st, rng):
+        """Sub-index-structure family: several arrays over the *same* indices
+        that each miss a different sector, pushed through fuse -> (an
+        operation that plans on the fused index) -> unfuse. Their fused
+        indices can agree in charge table, direction and sub-indices and
+        differ only in which sub-sectors make up each fused charge."""
+        ctx = st.ctx
+        sym = rng.choice(list(ctx.syms))
+        kind = rng.choice(list(ctx.kinds))
+        nd = rng.choice([3, 3, 4])
+        d = rng.choice([1, 2, 2])
+        pool = specs.CHARGE_POOL[sym]
+        idx = []
+        for _ in range(nd):
+            cs = sorted(rng.sample(pool, 2))
+            idx.append({"cm": [[core.jsonable(c), d] for c in cs], "dual": rng.random() < 0.5})
+        base = ctx.new_spec(kind=kind, sym=sym, indices=idx, sparsity=0.0)
+        secs = [core.untuple(x) for x in base["sectors"]]
+        if len(secs) < 3:
+            return None
+        nsib = rng.choice([2, 2, 3])
+        drops = rng.sample(range(len(secs)), min(nsib, len(secs)))
+        g1 = rng.sample(range(nd), 2)
+        mode = rng.choice(["fuse2", "tensordot", "reshape", "fuse2"])
+        out = []
+        partner = None
+        if mode == "tensordot":
+            ax = [a for a in range(nd) if a not in g1][-1]
+            # position of that axis after the first fuse
+            pos = min(g1)
+            rest = [a for a in range(nd) if a not in g1]
+            new_order = rest[:]
+            new_order.insert(len([a for a in rest if a < pos]), "g")
+            ax_f = new_order.index(ax)
+            pspec = ctx.new_spec(kind=kind, sym=sym, static=base["static"], dtype=base["dtype"],
+                                 indices=[specs.conj_index_spec(idx[ax]), specs.gen_index(rng, sym)],
+                                 sparsity=0.0)
+            partner = ctx.fresh()
+            out.append({"op": "new", "in": [], "out": [partner], "a": {"spec": pspec}})
+        for k in drops:
+            v = dict(base)
+            v["sectors"] = core.jsonable([x for i, x in enumerate(secs) if i != k])
+            v["seed"] = rng.randrange(2**31)
+            n0 = ctx.fresh()
+            out.append({"op": "new", "in": [], "out": [n0], "a": {"spec": v}, "variant": "sibling"})
+            n1 = ctx.fresh()
+            out.append({"op": "fuse", "in": [n0], "out": [n1], "a": {"groups": [list(g1)]}, "echo": "sibling"})
+            n2 = ctx.fresh()
+            if mode == "fuse2":
+                out.append({"op": "fuse", "in": [n1], "out": [n2],
+                            "a": {"groups": [[0, 1]] if rng.random() < 0.7 else [[1, 0]]}, "echo": "sibling"})
+            elif mode == "reshape":
+                out.append({"op": "reshape", "in": [n1], "out": [n2], "a": {"shape": [-1]}, "echo": "sibling"})
+            else:
+                out.append({"op": "tensordot", "in": [n1, partner], "out": [n2],
+                            "a": {"axes": [[ax_f], [0]], "mode": "fused"}, "echo": "sibling"})
+            n3 = ctx.fresh()
+            out.append({"op": "unfuse_all", "in": [n2], "out": [n3], "a": {}, "echo": "sibling"})
+        return out
+
     def _echo(self, st, rng):
         """Re-issue an earlier lineage on a near-identical array."""
         ctx = st.ctx
+        if rng.random() < 0.2:
+            sib = self._siblings(st, rng)
+            if sib:
+                return sib
         roots = [r for r in st.roots if st.lineage.get(r)]
         if st.binaries and rng.random() < 0.3:
             stp = rng.choice(st.binaries)
